@@ -179,3 +179,17 @@ Fixpoint ref_session_stream (tcp : bool) (k : N) (cs : list (N * call * call_fat
         end
       else ref_session_stream tcp (if reaches_task c then k + 1 else k) rest
   end.
+
+(* ------------------------------------------------------------------ C03 through the C ABI: caller-owned value lists *)
+(* The C API passes the values of a write-multiple request in a caller-owned list object
+   (rodbus_bit_list / rodbus_register_list): the caller adds values, hands the list to
+   rodbus_client_channel_write_multiple_*, may add more values and hand it over again. A step is
+   `inl values` (rodbus_*_list_add for each value) or `inr (unit, start)` (one write call). Each
+   write call transmits the encoding of the values the list holds AT CALL TIME: the list is the
+   caller's, a call does not change it. *)
+Fixpoint ref_list_calls {A} (mk : N -> list A -> call) (held : list A) (steps : list (list A + N * N)) : list (N * call) :=
+  match steps with
+  | [] => []
+  | inl vs :: rest => ref_list_calls mk (held ++ vs) rest
+  | inr (uid, start) :: rest => (uid, mk start held) :: ref_list_calls mk held rest
+  end.
